@@ -58,6 +58,16 @@ def run_job(job, timeout_ms=20000, seed=0, mode=None):
             elif kind == "lemma":
                 from props import lemmas
                 done = lemmas.run(eng, lib, job[1])
+            elif kind == "steps":
+                from props import scenarios
+                done = scenarios.run_steps(eng, lib, job[1])
+                for d in done:
+                    res["outcomes"][d["outcome"]] = res["outcomes"].get(d["outcome"], 0) + 1
+            elif kind == "fault":
+                from props import scenarios
+                done = scenarios.run_fault(eng, lib, job[1], job[2] == "persistent")
+                for d in done:
+                    res["outcomes"][d["outcome"]] = res["outcomes"].get(d["outcome"], 0) + 1
             elif kind == "special":
                 from props import special
                 done = special.run(eng, lib, job[1], tier=job[2] if len(job) > 2 else "quick")
